@@ -63,6 +63,12 @@ theorem gen_czt_glue (n M L : Nat) : cztGlueGen n M L = cztGlue n M L := by
     intro a b; cases a; cases b; simp only [CztGlue.mk.injEq]; intros; simp_all
   apply ext <;> simp only [cztGlueGen, cztGlue, cztStart, cen] <;> omega
 
+/-- the chirp-Z cache key contains every quantity the bases depend on (sizes, FFT lengths, both chirp constants, both
+shifts, dtype) and nothing else is read while building -/
+theorem gen_czt_key :
+    (∀ r ∈ ["m", "n", "M", "N", "K", "L", "alphay", "alphax", "shift[0]", "shift[1]", "dtype"], r ∈ cztKeyFields) ∧
+    (∀ r ∈ cztBuildReads, r ∈ cztKeyFields) ∧ (∀ r ∈ mdftBuildReads, r ∈ mdftKeyFields) := by decide
+
 theorem gen_czt_wiring :
     cztRowWiring = wiringAxis0 ∧ cztColWiring = wiringAxis1 ∧ cztFft2SizeIsRowCol = true ∧
     cztShiftSignOut = -1 ∧ cztShiftSignIn = -1 ∧ cztPipelineIsBluestein = true ∧ icztIsConjCztConj = true := by decide
@@ -235,6 +241,14 @@ theorem asp_energy (he : IsChar e) (hf : IsFaithful e) (cj : K →+* K) (hc : Is
     (hm : 0 < m) (hn : 0 < n) (wvl dx z : R) (f : Array (Array K)) :
     energy2 cj m n (rd2 (asp e (m, n) wvl dx z f)) = energy2 cj m n (rd2 f) :=
   aspApply_energy nrm he hf cj hc m n hm hn _ (fun p q _ _ => aspTf2_unit nrm he cj hc (m, n) wvl dx z p q) f
+
+/-- with `Q > 1` the field is zero-padded first: the output (on the padded grid) still has the energy of the input -/
+theorem asp_energy_padded (he : IsChar e) (hf : IsFaithful e) (cj : K →+* K) (hc : IsConj cj e nrm) (m n M' N' : Nat)
+    (hm : m ≤ M') (hn : n ≤ N') (hM : 0 < M') (hN' : 0 < N') (wvl dx z : R) (f : Array (Array K)) :
+    energy2 cj M' N' (rd2 (aspPadded e (m, n) (M', N') (padLo (m : Int) (M' : Int), padLo (n : Int) (N' : Int)) wvl dx z f))
+      = energy2 cj m n (rd2 f) := by
+  unfold aspPadded
+  rw [asp_energy nrm he hf cj hc M' N' hM hN' wvl dx z, pad_energy cj m n M' N' hm hn f]
 
 /-- it is the identity at zero distance -/
 theorem asp_identity_at_zero (he : IsChar e) (hf : IsFaithful e) (cj : K →+* K) (hc : IsConj cj e nrm) (m n : Nat)
